@@ -41,7 +41,7 @@ def run(job):
     shutil.copytree(src, d, ignore=shutil.ignore_patterns('*_test.go'))
     for r,_,fs in os.walk(d):
         for f in fs:
-            if f.endswith(('.go','.yml')):
+            if f.endswith(('.go','.yml','.graphqls','.graphql')):
                 p=os.path.join(r,f); s=open(p).read()
                 for tail in ('/','"','\n'): s=s.replace(oldimp+tail,newimp+tail)
                 open(p,'w').write(s)
